@@ -65,6 +65,8 @@ def step (st : St) : List String → St × String
     match parseCps t with
     | some t => (st, " ".intercalate ("lines" :: (codecLines t).map showCps))
     | none => (st, "bad-op")
+  | ["txt.tables"] =>
+    (st, s!"seps {showCps pyLineSeps} spaces {showCps pySpaces}")
   | _ => (st, "bad-op")
 
 end Drive.Loader
